@@ -759,14 +759,19 @@ impl<'a> Sim<'a> {
             ctx.label("add_op_refused_at_count_limit");
         }
         match (class.zone, &res) {
-            (Zone::MustReject, Ok(())) => ctx.fail(
-                format!("addop_accepts_invalid:{}", class.reasons),
-                format!(
-                    "add_op accepted op {id} ({}) on a replica with {before} entries; op = {:?}",
-                    class.reasons,
-                    w.op_of(id)
-                ),
-            ),
+            (Zone::MustReject, Ok(())) => {
+                // one failure per reason: every one of these checks failed to stop the op
+                for reason in class.reasons.split('+') {
+                    ctx.fail(
+                        format!("addop_accepts_invalid:{reason}"),
+                        format!(
+                            "add_op accepted op {id} ({}) on a replica with {before} entries; op = {:?}",
+                            class.reasons,
+                            w.op_of(id)
+                        ),
+                    );
+                }
+            }
             (Zone::MustReject, Err(_)) => {
                 self.flags.rejected_invalid = true;
                 ctx.label("invalid_op_rejected");
@@ -876,14 +881,21 @@ impl<'a> Sim<'a> {
                 ids.iter().filter(|i| w.class_of(**i).zone == Zone::MustReject).collect();
             let either = ids.iter().any(|i| w.class_of(*i).zone == Zone::Either);
             match (&res, invalid.first()) {
-                (Ok(()), Some(i)) => ctx.fail(
-                    format!("verified_merge_accepts_invalid:{}", w.class_of(**i).reasons),
-                    format!(
-                        "replica {a}: verified_merge accepted a same-base register holding invalid op {i} ({}): {:?}",
-                        w.class_of(**i).reasons,
-                        w.op_of(**i)
-                    ),
-                ),
+                (Ok(()), Some(_)) => {
+                    // one failure per (invalid op, reason)
+                    for i in &invalid {
+                        for reason in w.class_of(**i).reasons.split('+') {
+                            ctx.fail(
+                                format!("verified_merge_accepts_invalid:{reason}"),
+                                format!(
+                                    "replica {a}: verified_merge accepted a same-base register holding invalid op {i} ({}): {:?}",
+                                    w.class_of(**i).reasons,
+                                    w.op_of(**i)
+                                ),
+                            );
+                        }
+                    }
+                }
                 (Err(_), Some(_)) => {
                     self.flags.rejected_invalid = true;
                     ctx.label("foreign_register_with_invalid_op_rejected");
